@@ -151,9 +151,13 @@ func drawDialectModel(t *rapid.T, idx int) XDialect {
 			}
 			e.Desc = drawDesc(t, "edesc")
 			nent := rapid.IntRange(1, 6).Draw(t, "nentries")
+			// ordinary enums that merely look like flag sets (all values powers of two) stay ordinary
+			flagLike := !e.Bitmask && rapid.IntRange(0, 4).Draw(t, "flag_like") == 0
 			for j := 0; j < nent; j++ {
 				var v uint64
-				if e.Bitmask {
+				if flagLike {
+					v = uint64(1) << uint(rapid.IntRange(0, 10).Draw(t, "bit"))
+				} else if e.Bitmask {
 					v = uint64(1) << uint(rapid.OneOf(rapid.IntRange(0, 12), rapid.IntRange(0, 63)).Draw(t, "bit"))
 				} else {
 					v = rapid.OneOf(rapid.Uint64Range(0, 20), rapid.Uint64Range(0, 70000), rapid.SampledFrom([]uint64{1000, 1 << 31, 1 << 32, 1<<63 - 1, 1 << 63, 1<<64 - 1})).Draw(t, "value")
